@@ -16,7 +16,7 @@ def gen_delays(rng, n_sets=1, skew=None):
         else:
             rows.append([rng.choice(DYADIC) for _ in range(4)])
     if rng.random() < 0.15: rows.append([0, 0, 0, 0])
-    return {'n_sets': n_sets, 'rows': rows, 'skew': skew}
+    return {'n_sets': n_sets, 'rows': rows, 'skew': skew, 'f32': rng.random() < 0.5, 'ndim3': n_sets == 1 and rng.random() < 0.3}
 
 
 def gen_caps(rng, p_fault=0.5):
@@ -27,7 +27,7 @@ def gen_caps(rng, p_fault=0.5):
     if rng.random() < 0.25: return {'default': 4, 'vec': None}
     n = rng.randint(3, 17)
     vec = [rng.choice([4, 4, 4, 8, 16, 32, 64]) for _ in range(n)]
-    return {'default': 16, 'vec': vec}
+    return {'default': 16, 'vec': vec, 'plus3': rng.random() < 0.5}     # False: the documented length len(circuit.lines)
 
 
 def gen_stim(rng, n=None):
@@ -35,7 +35,7 @@ def gen_stim(rng, n=None):
     rows = []
     for _ in range(n):
         r = rng.random()
-        t = rng.choice([0, 0, 1, 2.5, 5, 10, 17.25, 100])
+        t = rng.choice([0, 0, 1, 2.5, 5, 10, 17.25, 100, -3, -0.5])
         if r < 0.2: rows.append([0, t, 0])
         elif r < 0.4: rows.append([1, t, 1])
         elif r < 0.7: rows.append([0, t, 1])
